@@ -109,6 +109,35 @@ def run(ctx):
                why='constructing a slice re-points the wells of the plate it is taken from',
                key='array setter identity')
 
+    # ---- results of operations are new objects: callers (and users) treat them as their own
+    ops = ['Container._add', 'Container._transfer', 'Container._transfer_slice', 'Container.remove', 'Container.dilute',
+           'Container.fill_to', 'Container.create_solution', 'Container.create_solution_from', 'PlateSlicer.remove',
+           'PlateSlicer.fill_to', 'Plate.remove', 'Plate.fill_to']
+    relied = set()
+    for e in events:
+        if e.ok and e.why.startswith('result of the operation '):
+            relied.add(e.why.split('result of the operation ')[1].split('(')[0])
+    ctx.count('operations_whose_results_are_mutated_by_callers', len(relied))
+    nret = 0
+    for q in ops:
+        if q.split('.')[1] not in relied and not (q.split('.')[1] in ('_transfer', '_transfer_slice') and 'transfer' in relied):
+            continue
+        fi = model.func(q)
+        ff = ctx.flow(q)
+        for ex in ff.normal_exits():
+            if ex.kind != 'return' or ex.value is None:
+                continue
+            v = ex.value
+            elts = v.elts if isinstance(v, ast.Tuple) else (v.value.elts if isinstance(v, Ref) and isinstance(v.value, ast.Tuple) else [v])
+            for i, e in enumerate(elts):
+                nret += 1
+                cls, why = fr.classify(e, ex.state, ff)
+                ok = cls == FRESH
+                ctx.ob('C04.R1', fi, ex.line, f"{q} returns a new object (result {i} at line {ex.line})", ok,
+                       fact=f"{cls}: {why}", why='an operation hands back one of its arguments (or a shared object): what '
+                       'the caller then does to the "result" happens to the argument', key=f"returned object not fresh in {q}")
+    floor(ctx, 'returned objects of operations', nret, 4)
+
     # ---- R3: what the recipe keeps is a deep copy / a fresh result
     recipe = model.cls('Recipe')
     nres = 0
